@@ -113,13 +113,32 @@ READY = {
 }
 
 
+# glue added by site extraction (DESIGN §12.2): appended to the level text / note / technique of the property
+GLUE = {
+    "C01": "Pointer arithmetic: Ring.unwind is proved equal (Props/C13Glue.lean) to _unwind_ptr as REGENERATED from core/infrastructure.py on every run.",
+    "C04": "The per-step recurrences of the model are proved equal (Props/C04Glue.lean) to the right-hand sides of self.current / pos_current / neg_current, the delta-plus pulse and the spike_to_current closure REGENERATED from the synapse classes' source on every run (site extraction).",
+    "C07": "What each of the twelve reducer classes supplies (fold, interpolate, decay update) is proved equal (Props/C07Glue.lean) to the bodies of its methods REGENERATED from observe/reducers/*.py on every run.",
+    "C08": "The routing tables used by the model are proved equal (Props/C09Glue.lean) to the match statements REGENERATED from each trainer's forward on every run.",
+    "C09": "Every routing table, match subject, assigned updater attribute and clamp split of Model/Split.lean is proved equal (Props/C09Glue.lean) to Gen/Routes.lean, REGENERATED on every run from the match statements / updater assignments inside each trainer's forward (site extraction).",
+    "C13": "The size formula recSize (over rationals and reals) and Synapse.recordsz are proved equal (Props/C13Glue.lean) to the three inline size expressions REGENERATED from RecordTensor's constructor, dt setter and duration setter on every run; the three copies are proved to agree.",
+    "C14": "The record-size formula behind every setter is tied to the source by Props/C13Glue.lean (regenerated size expressions).",
+    "C18": "t_delta, the exponential terms (which rate / time constant on which branch) and the delay trainers' tables are proved equal (Props/C18Glue.lean, Props/C09Glue.lean) to the expressions REGENERATED from the delay-adjusted and kernel trainers' forward methods on every run.",
+    "C19": "The formula-level steps of the rational encoder model (refractory conversion, interval scale, sample*scale+refrac, spike tests, Bernoulli probability) are proved equal on finite values (Props/C19Glue.lean) to the expressions REGENERATED from neural/functional/encoding.py on every run.",
+    "C20": "Every distribution formula of Model/DistR.lean is proved equal (Props/C20GlueDist.lean), for every choice of the opaque primitives erf / lgamma / gammaincc / expm1, to the method bodies REGENERATED from stats/distributions.py on every run.",
+}
+
+
 def main():
     props = [json.loads(l) for l in (VERIF / "properties.jsonl").read_text().splitlines() if l.strip()]
     checks, na = [], []
     for p in props:
         pid = p["id"]
         if pid in READY and (VERIF / "harness" / "corr" / f"{pid.lower()}.py").exists():
-            r = READY[pid]
+            r = dict(READY[pid])
+            if pid in GLUE:
+                r["text"] = r["text"] + " " + GLUE[pid]
+                r["note"] = r["note"] + " Site extraction (harness/sites.py) is part of the trusted translator; its output is validated per run against the compiled source expression."
+                r["tech"] = r.get("tech", TECH) + " + glue theorems to definitions regenerated from the source (translator / site extraction)"
             checks.append({
                 "property_id": pid,
                 "quick_cmd": f"./check {pid} --tier quick",
